@@ -112,20 +112,23 @@ pub fn run_case(seed: u64) -> CaseResult {
     res
 }
 
-fn case(srv: &mut Srv, seed: u64, res: &mut CaseResult) -> R<()> {
-    let mut rng = Rng::new(seed);
-    let a = srv.new_context()?;
-    let b = srv.new_context()?;
-    let ctxs = [ZERO_CONTEXT, a, b];
-    let hnames = ["h1", "h2"];
-    let gnames = ["g1", "g2"];
-    let cnames = ["c1", "c2"];
-    let mut events = vec![];
-    // model, only for what is unambiguous: handlers per (ctx, name)
-    let mut model_handlers: BTreeMap<(usize, &str), Option<Scru128Id>> = BTreeMap::new();
-    let mut same_name_two_contexts = false;
-    let n_events = 10 + rng.below(12);
-    for ev in 0..n_events {
+const HNAMES: [&str; 2] = ["h1", "h2"];
+const GNAMES: [&str; 2] = ["g1", "g2"];
+const CNAMES: [&str; 2] = ["c1", "c2"];
+
+struct Hist {
+    events: Vec<String>,
+    /// model, only for what is unambiguous: handlers per (ctx, name)
+    model_handlers: BTreeMap<(usize, &'static str), Option<Scru128Id>>,
+    same_name_two_contexts: bool,
+}
+
+/// one segment of the history: `n_events` random lifecycle events (numbered from `ev_base`)
+fn play_events(srv: &mut Srv, rng: &mut Rng, ctxs: &[Scru128Id; 3], n_events: usize, ev_base: usize, h: &mut Hist) -> R<()> {
+    let (hnames, gnames, cnames) = (HNAMES, GNAMES, CNAMES);
+    let events = &mut h.events;
+    let model_handlers = &mut h.model_handlers;
+    for ev in ev_base..ev_base + n_events {
         let ci = rng.below(3);
         let ctx = ctxs[ci];
         let kind = *rng.pick(&["h-register", "h-register", "h-unregister", "h-fail", "h-register-bad", "g-spawn", "g-spawn", "g-spawn-nocontent", "c-define", "c-define", "c-define-bad", "c-call", "noise"]);
@@ -138,7 +141,7 @@ fn case(srv: &mut Srv, seed: u64, res: &mut CaseResult) -> R<()> {
                 srv.wait(Duration::from_secs(20), |log| log.iter().any(|x| x.topic == tn && meta_str(x, "handler_id") == Some(&hid)))?;
                 model_handlers.insert((ci, n), Some(f.id));
                 if model_handlers.iter().any(|((c2, n2), v)| *n2 == n && *c2 != ci && v.is_some()) {
-                    same_name_two_contexts = true;
+                    h.same_name_two_contexts = true;
                 }
             }
             "h-unregister" => {
@@ -187,6 +190,19 @@ fn case(srv: &mut Srv, seed: u64, res: &mut CaseResult) -> R<()> {
             srv.settle(Duration::from_millis(40), Duration::from_secs(5))?;
         }
     }
+    Ok(())
+}
+
+fn case(srv: &mut Srv, seed: u64, res: &mut CaseResult) -> R<()> {
+    let mut rng = Rng::new(seed);
+    let a = srv.new_context()?;
+    let b = srv.new_context()?;
+    let ctxs = [ZERO_CONTEXT, a, b];
+    let cnames = CNAMES;
+    let mut h = Hist { events: vec![], model_handlers: BTreeMap::new(), same_name_two_contexts: false };
+    let n_events = 10 + rng.below(12);
+    play_events(srv, &mut rng, &ctxs, n_events, 0, &mut h)?;
+    let mut ev_next = n_events;
     if rng.chance(400) {
         // directed: the newest definition of a name is invalid, an older one is valid (latest *valid* one wins,
         // before and after a restart alike)
@@ -194,18 +210,19 @@ fn case(srv: &mut Srv, seed: u64, res: &mut CaseResult) -> R<()> {
         srv.must_append(&format!("{}.define", n), ZERO_CONTEXT, Some(command_script("directed-valid").as_bytes()), None, None)?;
         srv.settle(Duration::from_millis(60), Duration::from_secs(5))?;
         srv.must_append(&format!("{}.define", n), ZERO_CONTEXT, Some(b"{norun: 1}"), None, None)?;
-        events.push(format!("directed:valid-then-invalid-define:{}", n));
+        h.events.push(format!("directed:valid-then-invalid-define:{}", n));
         res.count("directed.valid_then_invalid_define", 1);
     }
     srv.settle(Duration::from_millis(300), Duration::from_secs(10))?;
     let restarts = 1 + rng.below(2);
     let (mut before, mut sent_before) = probe(srv, &ctxs, &cnames, 0)?;
     // the unambiguous part of the model: handlers
-    let model_set: BTreeSet<(String, String, String)> = model_handlers
+    let model_set: BTreeSet<(String, String, String)> = h
+        .model_handlers
         .iter()
         .filter_map(|((ci, n), v)| v.map(|id| (ctx_label(&ctxs[*ci], &ctxs), n.to_string(), id.to_string())))
         .collect();
-    let d0 = json!({"events": events, "same_handler_name_in_two_contexts": same_name_two_contexts});
+    let d0 = json!({"events": h.events, "same_handler_name_in_two_contexts": h.same_name_two_contexts});
     if before.handlers != model_set {
         res.find(&["C16"], "before-restart/answering-handlers-differ-from-the-model", json!({"case": d0, "answering": before.handlers, "model": model_set}));
     }
@@ -229,7 +246,10 @@ fn case(srv: &mut Srv, seed: u64, res: &mut CaseResult) -> R<()> {
                     // history says is active afterwards: the same set with the replacement in place of the old one
                     before.handlers.remove(&old);
                     before.handlers.insert((old.0.clone(), old.1.clone(), hid.clone()));
-                    events.push(format!("directed:replace-busy-handler-then-kill:{}@{}", old.1, ci));
+                    if let Some(n) = HNAMES.iter().find(|n| **n == old.1) {
+                        h.model_handlers.insert((ci, *n), Some(f.id));
+                    }
+                    h.events.push(format!("directed:replace-busy-handler-then-kill:{}@{}", old.1, ci));
                     res.count("directed.replace_busy_then_kill", 1);
                     if !old_gone {
                         res.count("directed.killed_before_old_unregistered", 1);
@@ -270,7 +290,7 @@ fn case(srv: &mut Srv, seed: u64, res: &mut CaseResult) -> R<()> {
         srv.wait(Duration::from_secs(20), |log| log.iter().any(|f| f.topic == "canh.unregistered" && meta_str(f, "handler_id") == Some(&crid)))?;
         srv.settle(Duration::from_millis(300), Duration::from_secs(15))?;
         let (after, sent_after) = probe(srv, &ctxs, &cnames, r + 1)?;
-        let d = json!({"events": events, "restart": r, "kill": kill, "same_handler_name_in_two_contexts": same_name_two_contexts});
+        let d = json!({"events": h.events, "restart": r, "kill": kill, "same_handler_name_in_two_contexts": h.same_name_two_contexts});
         if after.handlers != before.handlers {
             let lost: Vec<_> = before.handlers.difference(&after.handlers).collect();
             let came_back: Vec<_> = after.handlers.difference(&before.handlers).collect();
@@ -324,13 +344,33 @@ fn case(srv: &mut Srv, seed: u64, res: &mut CaseResult) -> R<()> {
         let _ = sent_after;
         before = after;
         sent_before = vec![];
+        if r + 1 < restarts && rng.chance(650) {
+            // "every restart point": the history goes on after this restart (on top of what start-up restored)
+            // and the next restart comes after that
+            let n2 = 4 + rng.below(7);
+            h.events.push("|restart|".into());
+            play_events(srv, &mut rng, &ctxs, n2, ev_next, &mut h)?;
+            ev_next += n2;
+            srv.settle(Duration::from_millis(300), Duration::from_secs(10))?;
+            let (b2, _) = probe(srv, &ctxs, &cnames, 10 + r)?;
+            let model_set: BTreeSet<(String, String, String)> = h
+                .model_handlers
+                .iter()
+                .filter_map(|((ci, n), v)| v.map(|id| (ctx_label(&ctxs[*ci], &ctxs), n.to_string(), id.to_string())))
+                .collect();
+            if b2.handlers != model_set {
+                res.find(&["C16", "C17"], "after-restart-and-more-events/answering-handlers-differ-from-the-model", json!({"events": h.events, "answering": b2.handlers, "model": model_set}));
+            }
+            before = b2;
+            res.count("mid_history_restart_points", 1);
+        }
     }
     let _ = sent_before;
     res.nontrivial = !before.handlers.is_empty() || !before.generators.is_empty() || !before.commands.is_empty();
-    res.seen("same_name_in_two_contexts", same_name_two_contexts.to_string());
-    res.hash = fnv(&events.join(","));
+    res.seen("same_name_in_two_contexts", h.same_name_two_contexts.to_string());
+    res.hash = fnv(&h.events.join(","));
     if res.sample.is_none() {
-        res.sample = Some(json!({"events": events, "answers_before_restart": {"handlers": before.handlers, "commands": before.commands.iter().map(|(k, v)| json!([k.0, k.1, v])).collect::<Vec<Value>>(), "generators": before.generators}}));
+        res.sample = Some(json!({"events": h.events, "answers_before_restart": {"handlers": before.handlers, "commands": before.commands.iter().map(|(k, v)| json!([k.0, k.1, v])).collect::<Vec<Value>>(), "generators": before.generators}}));
     }
     Ok(())
 }
